@@ -16,7 +16,7 @@ theorem monthLen_eq (m : Nat) (y : Int) (hy : 0 â‰¤ y) (h1 : 1 â‰¤ m) (h2 : m â‰
     monthLen m y = specMonthLen m y := by
   unfold monthLen specMonthLen
   have := isLeap_iff y hy
-  interval_cases m <;> simp <;> by_cases hl : specLeap y <;> simp_all
+  interval_cases m <;> simp <;> (by_cases hl : specLeap y <;> simp_all)
 
 /-- `next` of a real date (year below the i32 limit) is the next ordinal day and is real -/
 theorem next_spec (d : Date) (h : Real d) (hmax : d.year < i32Max) :
@@ -146,12 +146,12 @@ theorem next_year_le (d d' : Date) (hy : 1 â‰¤ d.year) (h : next d = some d') :
 
 theorem subDays_snoc (n : Nat) (x : Date) : subDays (n + 1) x = (subDays n x).bind prev := by
   induction n generalizing x with
-  | zero => simp [subDays]
+  | zero => simp only [subDays, Option.bind_some]; cases hp : prev x <;> simp
   | succ n ih =>
     rw [subDays]
     cases hp : prev x with
     | none => simp [subDays, hp]
-    | some x' => simp only [Option.bind_some]; rw [ih x']; simp [subDays, hp]
+    | some x' => simp only []; rw [ih x']; simp [subDays, hp]
 
 /-- adding `n` days walks `n` ordinal days forward through real dates, and subtracting the same
 `n` days returns the original date -/
